@@ -116,7 +116,7 @@ def run(rep, tier, seed, model_ok=True, effort=1):
             in_scope = False
         nviol = len(rep.violations)
         s = roundtrip_oracle(rep, impl, v, pat, info) if in_scope else impl_format(impl, v, pat)
-        if in_scope and s and len(rep.violations) == nviol and not week53(v, pat):
+        if in_scope and s and len(rep.violations) == nviol and not week53(v, pat) and info.get("bridge", True):
             # the AST-layer theorem must apply to this (pattern, state): checked inside Coq
             bridge_items.append("(%s,%s)" % (v2gen.cvinfo(v), cs(pat)))
             bridge_meta.append((pat, v, s))
